@@ -1,7 +1,1099 @@
-//! C31 — not implemented yet.
-use vmon::report::Args;
+//! C31 — object writes persist exactly the bytes written (fault enumeration).
+//!
+//! The real `lance_io::object_writer::ObjectWriter` (through `ObjectStore::create` / `ObjectStore::put`
+//! / `ObjectWriter::new`) writes into `MpStore`, an `object_store::ObjectStore` whose multipart
+//! implementation is ours: it numbers every storage call of the writer (create-upload, each `put_part`
+//! call including retries, `complete`, single `put`), can fail the i-th call permanently or with a
+//! "connection reset by peer" error (the only error class the writer promises to retry), delays part
+//! completions by seeded yields so that parts finish out of order, records abort, and exposes what is
+//! visible through `head`/`list`/`get`. Part numbering follows the `object_store` contract as
+//! implemented by its S3/GCS/Azure clients: a part's position is the order of the `put_part` *call*,
+//! and `complete` fails with "Missing part" when a called part never finished.
+//!
+//! Scenario = chunk sequence (sizes around the 5 MiB part size), API flavour, flags. For every
+//! scenario: a dry run records the M storage calls, then EVERY call is failed in turn with every fault
+//! kind, and the writer is aborted / dropped after every write call and in the middle of shutdown.
+//! A tokio current-thread runtime with a paused clock makes the writer's 2–8 s retry back-off free.
 
-pub fn run(_args: &Args) -> i32 {
-    eprintln!("HARNESS-ERROR C31 not implemented");
-    2
+use async_trait::async_trait;
+use bytes::Bytes;
+use futures::stream::BoxStream;
+use lance_io::object_store::ObjectStore;
+use lance_io::object_writer::ObjectWriter;
+use object_store::memory::InMemory;
+use object_store::path::Path;
+use object_store::{
+    GetOptions, GetResult, ListResult, MultipartUpload, ObjectMeta, ObjectStore as OSObjectStore,
+    PutMultipartOptions, PutOptions, PutPayload, PutResult, UploadPart,
+};
+use serde_json::{json, Value};
+use std::collections::BTreeMap;
+use std::sync::{Arc, Mutex};
+use std::time::Duration;
+use tokio::io::AsyncWriteExt;
+use vmon::prng::{fnv, Rng};
+use vmon::report::{Args, Report, Tier};
+
+const MIB: usize = 1024 * 1024;
+const PART: usize = 5 * MIB;
+
+const RULE: &str = "Scenario = seeded chunk sequence around the 5 MiB part size x API flavour (write_all / partial \
+write / put helper) x flags (constant part size, pre-existing object, part completion order). For each \
+scenario a dry run records its storage calls; then every call is failed in turn (permanent; connection \
+reset once; connection reset forever for parts) and the writer is aborted / dropped after every write and \
+mid-shutdown. A run is non-trivial iff the multipart path was taken (>=1 put_part call reached the store); \
+distinct by (chunk size classes, API, flags, injection kind and point).";
+
+// -------------------------------------------------------------------------------------------
+// deterministic content
+// -------------------------------------------------------------------------------------------
+
+fn mix(mut z: u64) -> u64 {
+    z = (z ^ (z >> 30)).wrapping_mul(0xBF58_476D_1CE4_E5B9);
+    z = (z ^ (z >> 27)).wrapping_mul(0x94D0_49BB_1331_11EB);
+    z ^ (z >> 31)
+}
+
+/// bytes [pos, pos+len) of the stream identified by `seed`
+fn stream_bytes(seed: u64, pos: usize, len: usize) -> Vec<u8> {
+    let mut out = Vec::with_capacity(len + 8);
+    let mut p = pos;
+    let end = pos + len;
+    // unaligned head
+    while p < end && p % 8 != 0 {
+        out.push((mix(seed.wrapping_add((p / 8) as u64).wrapping_mul(0x9E37_79B9_7F4A_7C15)) >> ((p % 8) * 8)) as u8);
+        p += 1;
+    }
+    while p + 8 <= end {
+        out.extend_from_slice(&mix(seed.wrapping_add((p / 8) as u64).wrapping_mul(0x9E37_79B9_7F4A_7C15)).to_le_bytes());
+        p += 8;
+    }
+    while p < end {
+        out.push((mix(seed.wrapping_add((p / 8) as u64).wrapping_mul(0x9E37_79B9_7F4A_7C15)) >> ((p % 8) * 8)) as u8);
+        p += 1;
+    }
+    out
+}
+
+/// compare an object (as segments) with the stream prefix of the same length
+fn equals_stream(seed: u64, segs: &[Bytes]) -> Option<usize> {
+    let mut pos = 0usize;
+    for s in segs {
+        let mut off = 0;
+        while off < s.len() {
+            let n = (s.len() - off).min(1 << 20);
+            let exp = stream_bytes(seed, pos, n);
+            if exp[..] != s[off..off + n] {
+                let k = (0..n).find(|i| exp[*i] != s[off + *i]).unwrap_or(0);
+                return Some(pos + k);
+            }
+            off += n;
+            pos += n;
+        }
+    }
+    None
+}
+
+// -------------------------------------------------------------------------------------------
+// the controllable store
+// -------------------------------------------------------------------------------------------
+
+#[derive(Clone, Copy, Debug, PartialEq, Eq)]
+enum FaultKind {
+    /// generic error, never retried by the writer
+    Permanent,
+    /// "connection reset by peer" on exactly this call
+    ConnResetOnce,
+    /// "connection reset by peer" on this and every later put_part call
+    ConnResetForever,
+}
+
+impl FaultKind {
+    fn name(&self) -> &'static str {
+        match self {
+            FaultKind::Permanent => "permanent",
+            FaultKind::ConnResetOnce => "conn_reset_once",
+            FaultKind::ConnResetForever => "conn_reset_forever",
+        }
+    }
+    fn error(&self) -> object_store::Error {
+        match self {
+            FaultKind::Permanent => object_store::Error::Generic {
+                store: "e_io-mp",
+                source: "injected permanent failure".into(),
+            },
+            _ => object_store::Error::Generic {
+                store: "e_io-mp",
+                source: "injected: Connection reset by peer (os error 104)".into(),
+            },
+        }
+    }
+}
+
+#[derive(Clone, Debug, Default)]
+struct UploadRec {
+    path: String,
+    /// the handle was returned to the caller
+    returned: bool,
+    put_part_calls: usize,
+    parts: BTreeMap<usize, Bytes>,
+    complete_calls: usize,
+    completed: bool,
+    abort_calls: usize,
+}
+
+#[derive(Default)]
+struct MpState {
+    uploads: Vec<UploadRec>,
+    /// kinds of the numbered storage calls, in call order: "create", "part", "complete", "put"
+    calls: Vec<&'static str>,
+    fault: Option<(usize, FaultKind)>,
+    faults_fired: usize,
+    delay_seed: u64,
+    create_delay: usize,
+}
+
+struct MpStore {
+    me: std::sync::Weak<MpStore>,
+    visible: Arc<InMemory>,
+    st: Mutex<MpState>,
+}
+
+impl std::fmt::Debug for MpStore {
+    fn fmt(&self, f: &mut std::fmt::Formatter<'_>) -> std::fmt::Result {
+        write!(f, "MpStore")
+    }
+}
+impl std::fmt::Display for MpStore {
+    fn fmt(&self, f: &mut std::fmt::Formatter<'_>) -> std::fmt::Result {
+        write!(f, "MpStore")
+    }
+}
+
+impl MpStore {
+    fn new(delay_seed: u64, create_delay: usize, fault: Option<(usize, FaultKind)>) -> Arc<Self> {
+        Arc::new_cyclic(|me| Self {
+            me: me.clone(),
+            visible: Arc::new(InMemory::new()),
+            st: Mutex::new(MpState {
+                fault,
+                delay_seed,
+                create_delay,
+                ..Default::default()
+            }),
+        })
+    }
+    /// number a storage call; returns (call index, fault to apply)
+    fn on_call(&self, kind: &'static str) -> (usize, Option<FaultKind>) {
+        let mut g = self.st.lock().unwrap();
+        let n = g.calls.len();
+        g.calls.push(kind);
+        let f = match g.fault {
+            Some((k, fk)) if k == n => Some(fk),
+            Some((k, FaultKind::ConnResetForever)) if n > k && kind == "part" => {
+                Some(FaultKind::ConnResetForever)
+            }
+            _ => None,
+        };
+        if f.is_some() {
+            g.faults_fired += 1;
+        }
+        (n, f)
+    }
+    fn part_delay(&self, call: usize) -> usize {
+        let g = self.st.lock().unwrap();
+        (mix(g.delay_seed.wrapping_add(call as u64)) % 6) as usize
+    }
+}
+
+#[derive(Debug)]
+struct MpUpload {
+    store: Arc<MpStore>,
+    uid: usize,
+    path: Path,
+}
+
+#[async_trait]
+impl MultipartUpload for MpUpload {
+    fn put_part(&mut self, data: PutPayload) -> UploadPart {
+        let (call, fault) = self.store.on_call("part");
+        let idx = {
+            let mut g = self.store.st.lock().unwrap();
+            let u = &mut g.uploads[self.uid];
+            let idx = u.put_part_calls;
+            u.put_part_calls += 1;
+            idx
+        };
+        let delay = self.store.part_delay(call);
+        let store = self.store.clone();
+        let uid = self.uid;
+        Box::pin(async move {
+            for _ in 0..delay {
+                tokio::task::yield_now().await;
+            }
+            if let Some(f) = fault {
+                return Err(f.error());
+            }
+            let bytes: Bytes = data.into();
+            store.st.lock().unwrap().uploads[uid].parts.insert(idx, bytes);
+            Ok(())
+        })
+    }
+
+    async fn complete(&mut self) -> object_store::Result<PutResult> {
+        let (_, fault) = self.store.on_call("complete");
+        let segs: Vec<Bytes> = {
+            let mut g = self.store.st.lock().unwrap();
+            let u = &mut g.uploads[self.uid];
+            u.complete_calls += 1;
+            if u.parts.len() != u.put_part_calls {
+                // what object_store's S3 / GCS / Azure clients answer (`Parts::finish`)
+                return Err(object_store::Error::Generic {
+                    store: "Parts",
+                    source: "Missing part".to_string().into(),
+                });
+            }
+            u.parts.values().cloned().collect()
+        };
+        tokio::task::yield_now().await;
+        if let Some(f) = fault {
+            return Err(f.error());
+        }
+        let mut all = Vec::with_capacity(segs.iter().map(|s| s.len()).sum());
+        for s in &segs {
+            all.extend_from_slice(s);
+        }
+        let r = self.store.visible.put(&self.path, Bytes::from(all).into()).await?;
+        let mut g = self.store.st.lock().unwrap();
+        let u = &mut g.uploads[self.uid];
+        u.completed = true;
+        u.parts.clear();
+        Ok(r)
+    }
+
+    async fn abort(&mut self) -> object_store::Result<()> {
+        let mut g = self.store.st.lock().unwrap();
+        let u = &mut g.uploads[self.uid];
+        u.abort_calls += 1;
+        u.parts.clear();
+        Ok(())
+    }
+}
+
+#[async_trait]
+impl OSObjectStore for MpStore {
+    async fn put_opts(&self, location: &Path, payload: PutPayload, opts: PutOptions) -> object_store::Result<PutResult> {
+        let (_, fault) = self.on_call("put");
+        tokio::task::yield_now().await;
+        if let Some(f) = fault {
+            return Err(f.error());
+        }
+        self.visible.put_opts(location, payload, opts).await
+    }
+    async fn put_multipart_opts(
+        &self,
+        location: &Path,
+        _opts: PutMultipartOptions,
+    ) -> object_store::Result<Box<dyn MultipartUpload>> {
+        let (_, fault) = self.on_call("create");
+        let delay = self.st.lock().unwrap().create_delay;
+        for _ in 0..delay {
+            tokio::task::yield_now().await;
+        }
+        if let Some(f) = fault {
+            return Err(f.error());
+        }
+        let uid = {
+            let mut g = self.st.lock().unwrap();
+            g.uploads.push(UploadRec {
+                path: location.to_string(),
+                returned: true,
+                ..Default::default()
+            });
+            g.uploads.len() - 1
+        };
+        // no await between registering the upload and returning the handle
+        Ok(Box::new(MpUpload {
+            store: self.self_arc(),
+            uid,
+            path: location.clone(),
+        }))
+    }
+    async fn get_opts(&self, location: &Path, options: GetOptions) -> object_store::Result<GetResult> {
+        self.visible.get_opts(location, options).await
+    }
+    async fn delete(&self, location: &Path) -> object_store::Result<()> {
+        self.visible.delete(location).await
+    }
+    fn list(&self, prefix: Option<&Path>) -> BoxStream<'static, object_store::Result<ObjectMeta>> {
+        self.visible.list(prefix)
+    }
+    async fn list_with_delimiter(&self, prefix: Option<&Path>) -> object_store::Result<ListResult> {
+        self.visible.list_with_delimiter(prefix).await
+    }
+    async fn copy(&self, from: &Path, to: &Path) -> object_store::Result<()> {
+        self.visible.copy(from, to).await
+    }
+    async fn copy_if_not_exists(&self, from: &Path, to: &Path) -> object_store::Result<()> {
+        self.visible.copy_if_not_exists(from, to).await
+    }
+}
+
+impl MpStore {
+    fn self_arc(&self) -> Arc<MpStore> {
+        self.me.upgrade().expect("store alive")
+    }
+}
+
+// -------------------------------------------------------------------------------------------
+// scenarios
+// -------------------------------------------------------------------------------------------
+
+#[derive(Clone, Copy, Debug, PartialEq, Eq)]
+enum Api {
+    /// ObjectStore::create + write_all per chunk
+    WriteAll,
+    /// ObjectWriter::new + raw `write` (partial writes looped by the harness) + flush now and then
+    PartialWrite,
+    /// ObjectStore::put(path, whole content)
+    PutHelper,
+}
+
+#[derive(Clone, Debug)]
+struct Scenario {
+    chunks: Vec<usize>,
+    api: Api,
+    constant_parts: bool,
+    pre_existing: bool,
+    delay_seed: u64,
+    create_delay: usize,
+    content_seed: u64,
+    flush_every: usize,
+}
+
+impl Scenario {
+    fn total(&self) -> usize {
+        self.chunks.iter().sum()
+    }
+    fn class(&self) -> String {
+        let cls = |n: usize| match n {
+            0 => "0".to_string(),
+            1 => "1".to_string(),
+            x if x == PART - 1 => "P-1".into(),
+            x if x == PART => "P".into(),
+            x if x == PART + 1 => "P+1".into(),
+            x if x < 64 * 1024 => "s".into(),
+            x if x < PART => "m".into(),
+            x if x < 2 * PART => "l".into(),
+            _ => "xl".into(),
+        };
+        let t = self.total();
+        let tc = if t < PART {
+            "<P".to_string()
+        } else if t % PART == 0 {
+            format!("={}P", t / PART)
+        } else if t % PART == 1 {
+            format!("={}P+1", t / PART)
+        } else if t % PART == PART - 1 {
+            format!("={}P-1", t / PART + 1)
+        } else {
+            format!("~{}P", t / PART)
+        };
+        format!(
+            "{:?}|{}|total{}|const={}|pre={}|cd={}",
+            self.api,
+            self.chunks.iter().map(|c| cls(*c)).collect::<Vec<_>>().join(","),
+            tc,
+            self.constant_parts,
+            self.pre_existing,
+            self.create_delay
+        )
+    }
+    fn describe(&self) -> Value {
+        json!({"api": format!("{:?}", self.api), "chunks": self.chunks, "total": self.total(),
+            "use_constant_size_upload_parts": self.constant_parts, "pre_existing_object": self.pre_existing,
+            "part_delay_seed": self.delay_seed, "create_delay_yields": self.create_delay,
+            "content_seed": self.content_seed, "flush_every": self.flush_every})
+    }
+}
+
+fn gen_scenario(rng: &mut Rng, idx: u64) -> Scenario {
+    let pool: [usize; 14] = [
+        0, 1, 1000, 64 * 1024, MIB, 3 * MIB, PART - 1, PART, PART + 1, 7 * MIB, 2 * PART, 2 * PART + 1, 12 * MIB, 313,
+    ];
+    // a few fixed boundary totals first, then random sequences
+    let chunks: Vec<usize> = match idx % 12 {
+        0 => vec![PART],
+        1 => vec![PART + 1],
+        2 => vec![PART - 1],
+        3 => vec![PART, PART],
+        4 => vec![PART - 1, 1, PART - 1, 1, 1],
+        5 => vec![0, 1, 0],
+        6 => vec![2 * PART + 1],
+        7 => vec![],
+        _ => {
+            let n = rng.urange(1, 6);
+            let mut v: Vec<usize> = (0..n).map(|_| *rng.pick(&pool)).collect();
+            // keep a run cheap: at most ~4 parts
+            while v.iter().sum::<usize>() > 21 * MIB {
+                v.pop();
+            }
+            if rng.chance(1, 3) {
+                let jitter = rng.urange(0, 3);
+                v.push(jitter);
+            }
+            v
+        }
+    };
+    Scenario {
+        chunks,
+        api: *rng.pick(&[Api::WriteAll, Api::WriteAll, Api::PartialWrite, Api::PutHelper]),
+        constant_parts: rng.bool(),
+        pre_existing: rng.chance(1, 4),
+        delay_seed: rng.next_u64(),
+        create_delay: if rng.chance(1, 3) { rng.urange(1, 3) } else { 0 },
+        content_seed: rng.next_u64(),
+        flush_every: if rng.chance(1, 3) { rng.urange(1, 3) } else { 0 },
+    }
+}
+
+#[derive(Clone, Copy, Debug, PartialEq, Eq)]
+enum Inject {
+    None,
+    Fault { call: usize, kind: FaultKind },
+    /// `abort()` after this many write calls
+    AbortAfter(usize),
+    /// drop the writer after this many write calls
+    DropAfter(usize),
+    /// poll `shutdown` this many times, then drop future and writer
+    DropDuringShutdown(usize),
+}
+
+impl Inject {
+    fn class(&self, calls: &[&'static str]) -> String {
+        match self {
+            Inject::None => "none".into(),
+            Inject::Fault { call, kind } => {
+                let k = calls.get(*call).copied().unwrap_or("?");
+                let nth = calls[..(*call).min(calls.len())].iter().filter(|c| **c == k).count();
+                format!("fault:{}#{}:{}", k, nth, kind.name())
+            }
+            Inject::AbortAfter(n) => format!("abort@{n}"),
+            Inject::DropAfter(n) => format!("drop@{n}"),
+            Inject::DropDuringShutdown(n) => format!("drop-in-shutdown@{n}"),
+        }
+    }
+}
+
+#[derive(Clone, Debug, PartialEq)]
+enum RunResult {
+    Ok { size: usize },
+    Err(String),
+    Aborted,
+    Dropped,
+    Hang,
+}
+
+#[derive(Clone, Debug)]
+struct Outcome {
+    result: RunResult,
+    calls: Vec<&'static str>,
+    faults_fired: usize,
+    /// the destination showed new content before shutdown was called
+    visible_early: Option<String>,
+    /// object at the destination afterwards
+    object: Option<Bytes>,
+    uploads: Vec<UploadRec>,
+    accepted: usize,
+    old: Option<Bytes>,
+}
+
+const DEST: &str = "data/obj.bin";
+
+async fn dest_state(store: &MpStore) -> (Option<Bytes>, bool) {
+    let p = Path::from(DEST);
+    let head_ok = store.visible.head(&p).await.is_ok();
+    let listed: Vec<ObjectMeta> = futures::TryStreamExt::try_collect(store.visible.list(None))
+        .await
+        .unwrap_or_default();
+    let in_list = listed.iter().any(|m| m.location == p);
+    let body = match store.visible.get(&p).await {
+        Ok(r) => r.bytes().await.ok(),
+        Err(_) => None,
+    };
+    (body, head_ok || in_list)
+}
+
+async fn settle() {
+    for _ in 0..64 {
+        tokio::task::yield_now().await;
+    }
+}
+
+async fn run_one(scn: &Scenario, inj: Inject) -> Outcome {
+    let fault = match inj {
+        Inject::Fault { call, kind } => Some((call, kind)),
+        _ => None,
+    };
+    let store = MpStore::new(scn.delay_seed, scn.create_delay, fault);
+    let path = Path::from(DEST);
+    let old = if scn.pre_existing {
+        let b = Bytes::from(stream_bytes(scn.content_seed ^ 0xdead, 0, 777));
+        store.visible.put(&path, b.clone().into()).await.unwrap();
+        Some(b)
+    } else {
+        None
+    };
+    let lance_store = ObjectStore::new(
+        store.clone(),
+        url::Url::parse("memory:///").unwrap(),
+        None,
+        None,
+        scn.constant_parts,
+        true,
+        8,
+        3,
+        None,
+    );
+    let mut visible_early: Option<String> = None;
+    let mut accepted = 0usize;
+    let body = async {
+        if scn.api == Api::PutHelper {
+            // one call does create + write_all + shutdown; only fault injection applies
+            let content = stream_bytes(scn.content_seed, 0, scn.total());
+            accepted = content.len();
+            return match lance_store.put(&path, &content).await {
+                Ok(r) => RunResult::Ok { size: r.size },
+                Err(e) => RunResult::Err(e.to_string()),
+            };
+        }
+        let mut w = match scn.api {
+            Api::WriteAll => match lance_store.create(&path).await {
+                Ok(w) => w,
+                Err(e) => return RunResult::Err(format!("create: {e}")),
+            },
+            _ => match ObjectWriter::new(&lance_store, &path).await {
+                Ok(w) => w,
+                Err(e) => return RunResult::Err(format!("new: {e}")),
+            },
+        };
+        let check_early = |st: (Option<Bytes>, bool), when: String, old: &Option<Bytes>, ve: &mut Option<String>| {
+            let changed = match (&st.0, old) {
+                (Some(b), Some(o)) => b != o,
+                (Some(_), None) => true,
+                (None, Some(_)) => true,
+                (None, None) => st.1,
+            };
+            if changed && ve.is_none() {
+                *ve = Some(when);
+            }
+        };
+        for (i, len) in scn.chunks.iter().enumerate() {
+            match inj {
+                Inject::AbortAfter(n) if n == i => {
+                    w.abort().await;
+                    drop(w);
+                    return RunResult::Aborted;
+                }
+                Inject::DropAfter(n) if n == i => {
+                    drop(w);
+                    return RunResult::Dropped;
+                }
+                _ => {}
+            }
+            let data = stream_bytes(scn.content_seed, accepted, *len);
+            match scn.api {
+                Api::WriteAll => {
+                    if let Err(e) = w.write_all(&data).await {
+                        drop(w);
+                        return RunResult::Err(format!("write_all[{i}]: {e}"));
+                    }
+                    accepted += data.len();
+                }
+                _ => {
+                    let mut off = 0;
+                    while off < data.len() {
+                        match w.write(&data[off..]).await {
+                            Ok(0) => {
+                                drop(w);
+                                return RunResult::Err(format!("write[{i}] returned 0"));
+                            }
+                            Ok(n) => {
+                                off += n;
+                                accepted += n;
+                            }
+                            Err(e) => {
+                                drop(w);
+                                return RunResult::Err(format!("write[{i}]: {e}"));
+                            }
+                        }
+                    }
+                    if scn.flush_every > 0 && (i + 1) % scn.flush_every == 0 {
+                        if let Err(e) = w.flush().await {
+                            drop(w);
+                            return RunResult::Err(format!("flush[{i}]: {e}"));
+                        }
+                    }
+                }
+            }
+            check_early(dest_state(&store).await, format!("after write {i}"), &old, &mut visible_early);
+        }
+        let n = scn.chunks.len();
+        match inj {
+            Inject::AbortAfter(k) if k >= n => {
+                w.abort().await;
+                drop(w);
+                return RunResult::Aborted;
+            }
+            Inject::DropAfter(k) if k >= n => {
+                drop(w);
+                return RunResult::Dropped;
+            }
+            Inject::DropDuringShutdown(polls) => {
+                {
+                    let fut = w.shutdown();
+                    tokio::pin!(fut);
+                    for _ in 0..polls {
+                        if let std::task::Poll::Ready(r) = futures::poll!(fut.as_mut()) {
+                            // finished before we could drop it: a normal completion
+                            return match r {
+                                Ok(r) => RunResult::Ok { size: r.size },
+                                Err(e) => RunResult::Err(format!("shutdown: {e}")),
+                            };
+                        }
+                        tokio::task::yield_now().await;
+                    }
+                }
+                drop(w);
+                return RunResult::Dropped;
+            }
+            _ => {}
+        }
+        check_early(dest_state(&store).await, "before shutdown".into(), &old, &mut visible_early);
+        let r = match w.shutdown().await {
+            Ok(r) => {
+                // shutdown is idempotent for the caller
+                let _ = w.shutdown().await;
+                RunResult::Ok { size: r.size }
+            }
+            Err(e) => RunResult::Err(format!("shutdown: {e}")),
+        };
+        drop(w);
+        r
+    };
+    // paused clock: a real hang auto-advances to this deadline immediately
+    let result = match tokio::time::timeout(Duration::from_secs(24 * 3600), body).await {
+        Ok(r) => r,
+        Err(_) => RunResult::Hang,
+    };
+    settle().await;
+    let (object, _) = dest_state(&store).await;
+    let g = store.st.lock().unwrap();
+    let out = Outcome {
+        result,
+        calls: g.calls.clone(),
+        faults_fired: g.faults_fired,
+        visible_early,
+        object,
+        uploads: g.uploads.clone(),
+        accepted,
+        old,
+    };
+    drop(g);
+    out
+}
+
+/// The oracle. Returns (signature, what) for every refuting observation.
+fn judge(scn: &Scenario, inj: Inject, o: &Outcome) -> Vec<(String, String)> {
+    let mut v = vec![];
+    let path_kind = if o.calls.iter().any(|c| *c == "part") { "multipart" } else { "single-put" };
+    if let Some(when) = &o.visible_early {
+        v.push((
+            format!("destination-changed-before-shutdown-{path_kind}"),
+            format!("destination showed new content {when}"),
+        ));
+    }
+    match &o.result {
+        RunResult::Ok { size } => {
+            match &o.object {
+                None => v.push((
+                    format!("no-object-after-successful-shutdown-{path_kind}"),
+                    "shutdown returned Ok but nothing is at the destination".into(),
+                )),
+                Some(b) => {
+                    if b.len() != o.accepted {
+                        v.push((
+                            format!("object-length-differs-from-written-bytes-{path_kind}"),
+                            format!("object has {} bytes, {} were written", b.len(), o.accepted),
+                        ));
+                    } else if let Some(pos) = equals_stream(scn.content_seed, &[b.clone()]) {
+                        v.push((
+                            format!("object-content-differs-from-written-bytes-{path_kind}"),
+                            format!("first difference at byte {pos} (part size {PART}: part {}, offset {})", pos / PART, pos % PART),
+                        ));
+                    }
+                }
+            }
+            if *size != o.accepted {
+                v.push((
+                    "reported-size-differs-from-written-bytes".into(),
+                    format!("WriteResult.size = {size}, written = {}", o.accepted),
+                ));
+            }
+        }
+        RunResult::Err(_) | RunResult::Aborted | RunResult::Dropped => {
+            let how = match &o.result {
+                RunResult::Err(_) => "failed-write",
+                RunResult::Aborted => "abort",
+                _ => "drop",
+            };
+            let left = match (&o.object, &o.old) {
+                (None, None) => None,
+                (Some(b), Some(old)) if b == old => None,
+                (Some(_), None) => Some("an object was left at the destination"),
+                (Some(_), Some(_)) => Some("the pre-existing object was replaced"),
+                (None, Some(_)) => Some("the pre-existing object disappeared"),
+            };
+            if let Some(what) = left {
+                // a `complete`/`put` that fails *after* the store applied it is not generated here
+                v.push((format!("object-left-after-{how}-{path_kind}"), what.to_string()));
+            }
+            for u in &o.uploads {
+                if u.returned && u.complete_calls == 0 && u.abort_calls == 0 {
+                    v.push((
+                        format!("dangling-upload-after-{how}"),
+                        format!(
+                            "multipart upload for {} with {} put_part calls was neither completed nor aborted",
+                            u.path, u.put_part_calls
+                        ),
+                    ));
+                }
+            }
+        }
+        RunResult::Hang => {}
+    }
+    let _ = inj;
+    v
+}
+
+fn witness(seed: u64, idx: u64, scn: &Scenario, inj: Inject, o: &Outcome) -> Value {
+    json!({"seed": seed as i64, "scenario_index": idx, "scenario": scn.describe(), "injection": format!("{inj:?}"),
+        "injection_class": inj.class(&o.calls), "storage_calls": o.calls, "result": format!("{:?}", o.result),
+        "accepted_bytes": o.accepted,
+        "object_after": o.object.as_ref().map(|b| json!({"len": b.len(), "fnv": fnv(b).to_string()})),
+        "uploads": o.uploads.iter().map(|u| json!({"returned": u.returned, "put_part_calls": u.put_part_calls,
+            "parts_finished": u.parts.len(), "complete_calls": u.complete_calls, "completed": u.completed,
+            "abort_calls": u.abort_calls})).collect::<Vec<_>>(),
+        "expected": "Ok => object == concatenation of accepted writes and size matches; before shutdown the destination is unchanged; Err/abort/drop => destination unchanged and upload aborted unless complete() was reached"})
+}
+
+fn rt_paused() -> tokio::runtime::Runtime {
+    tokio::runtime::Builder::new_current_thread()
+        .enable_all()
+        .start_paused(true)
+        .build()
+        .expect("runtime")
+}
+
+/// Everything that is enumerated for one scenario. Returns false if the time budget cut it short.
+fn run_scenario(report: &Report, seed: u64, idx: u64, scn: &Scenario, selftest: bool) -> bool {
+    let exec = |inj: Inject| -> Outcome {
+        let rt = rt_paused();
+        let o = rt.block_on(run_one(scn, inj));
+        drop(rt);
+        o
+    };
+    let record = |inj: Inject, mut o: Outcome| {
+        if selftest {
+            // damage the observation: flip one byte of the object / pretend an object was left
+            match (&o.result, &o.object) {
+                (RunResult::Ok { .. }, Some(b)) if !b.is_empty() => {
+                    let mut x = b.to_vec();
+                    let k = x.len() / 2;
+                    x[k] ^= 1;
+                    o.object = Some(Bytes::from(x));
+                }
+                (RunResult::Ok { .. }, _) => o.object = None,
+                _ => o.object = Some(Bytes::from_static(b"leftover")),
+            }
+        }
+        let multipart = o.calls.iter().any(|c| *c == "part");
+        let class = inj.class(&o.calls);
+        let sig = fnv(format!("{}|{}", scn.class(), class).as_bytes());
+        report.case(if multipart { Some(sig) } else { None });
+        report.count("runs", 1);
+        report.count(if multipart { "runs_multipart" } else { "runs_single_put" }, 1);
+        report.count("bytes_written", o.accepted as u64);
+        report.count("storage_calls_observed", o.calls.len() as u64);
+        let outcome_name = match &o.result {
+            RunResult::Ok { .. } => "ok",
+            RunResult::Err(_) => "err",
+            RunResult::Aborted => "aborted",
+            RunResult::Dropped => "dropped",
+            RunResult::Hang => "hang",
+        };
+        let inj_kind = class.split('#').next().unwrap_or("").split('@').next().unwrap_or("").to_string();
+        let inj_kind = match inj {
+            Inject::Fault { kind, .. } => format!("{}:{}", inj_kind, kind.name()),
+            _ => inj_kind,
+        };
+        report.count(&format!("inject.{inj_kind}.{outcome_name}"), 1);
+        if let Inject::Fault { .. } = inj {
+            if o.faults_fired == 0 {
+                report.count("fault_not_reached", 1);
+            }
+        }
+        if o.result == RunResult::Hang {
+            report.count("writer_hang", 1);
+            report.inconclusive(&format!(
+                "scenario {idx} {:?}: writer did not finish (paused clock ran to the 24 h deadline); not judged",
+                inj
+            ));
+        }
+        // diagnostics that are not part of the property
+        for u in &o.uploads {
+            if u.returned && !u.completed && u.abort_calls == 0 && u.complete_calls > 0 {
+                report.count("uploads_neither_completed_nor_aborted_after_complete_was_reached", 1);
+            }
+            if u.abort_calls > 0 {
+                report.count("uploads_aborted", 1);
+            }
+        }
+        let vs = judge(scn, inj, &o);
+        if selftest {
+            if vs.is_empty() && o.result != RunResult::Hang {
+                report.count("selftest_missed", 1);
+            } else {
+                report.count("selftest_flagged", 1);
+            }
+            return;
+        }
+        for (s, what) in vs {
+            report.violation(&s, &what, witness(seed, idx, scn, inj, &o));
+        }
+        if report.want_sample() && multipart && !matches!(inj, Inject::None) && idx % 5 == 1 {
+            report.sample(json!({"scenario": scn.describe(), "injection": class, "storage_calls": o.calls,
+                "result": format!("{:?}", o.result), "object_after": o.object.as_ref().map(|b| b.len())}));
+        }
+    };
+
+    // dry run: the calls to enumerate
+    let dry = exec(Inject::None);
+    let calls = dry.calls.clone();
+    record(Inject::None, dry);
+    let mut complete = true;
+    let mut plan: Vec<Inject> = vec![];
+    for (i, k) in calls.iter().enumerate() {
+        plan.push(Inject::Fault { call: i, kind: FaultKind::Permanent });
+        plan.push(Inject::Fault { call: i, kind: FaultKind::ConnResetOnce });
+        if *k == "part" {
+            plan.push(Inject::Fault { call: i, kind: FaultKind::ConnResetForever });
+        }
+    }
+    if scn.api != Api::PutHelper {
+        for n in 0..=scn.chunks.len() {
+            plan.push(Inject::AbortAfter(n));
+            plan.push(Inject::DropAfter(n));
+        }
+        for polls in [1usize, 2, 3, 5, 9] {
+            plan.push(Inject::DropDuringShutdown(polls));
+        }
+    }
+    for inj in plan {
+        if !report.time_left() {
+            complete = false;
+            break;
+        }
+        let o = exec(inj);
+        record(inj, o);
+    }
+    report.count("scenarios", 1);
+    report.count(&format!("scenario_api.{:?}", scn.api), 1);
+    report.count("fault_points_enumerated", calls.len() as u64);
+    if complete {
+        report.count("scenarios_fully_enumerated", 1);
+    }
+    complete
+}
+
+/// Local file system leg: the same writer over `ObjectStore::local()` (staged multipart file +
+/// rename). No fault injection; visibility, content and leftovers are checked on the real directory.
+fn local_fs_case(report: &Report, seed: u64, idx: u64, rng: &mut Rng) {
+    let dir = match tempfile::Builder::new().prefix("e_io-c31-").tempdir_in("/tmp") {
+        Ok(d) => d,
+        Err(e) => {
+            report.harness_error(&format!("tempdir: {e}"));
+            return;
+        }
+    };
+    let chunks: Vec<usize> = match idx % 3 {
+        0 => vec![PART + 1, 17],
+        1 => vec![1000, 2 * MIB],
+        _ => vec![PART, PART - 1, 2],
+    };
+    let how = rng.below(3); // 0 shutdown, 1 abort, 2 drop
+    let content_seed = rng.next_u64();
+    let file = dir.path().join("sub").join("obj.bin");
+    let rt = tokio::runtime::Builder::new_current_thread().enable_all().build().unwrap();
+    let res: Result<(), String> = rt.block_on(async {
+        let mut w = ObjectStore::create_local_writer(&file).await.map_err(|e| e.to_string())?;
+        let mut pos = 0;
+        for c in &chunks {
+            let d = stream_bytes(content_seed, pos, *c);
+            w.write_all(&d).await.map_err(|e| e.to_string())?;
+            pos += c;
+            if file.exists() {
+                report.violation(
+                    "destination-changed-before-shutdown-local-fs",
+                    "destination file exists before shutdown",
+                    json!({"seed": seed as i64, "local_case": idx, "chunks": chunks, "after_bytes": pos}),
+                );
+            }
+        }
+        match how {
+            0 => {
+                let r = w.shutdown().await.map_err(|e| e.to_string())?;
+                let got = std::fs::read(&file).map_err(|e| e.to_string())?;
+                let bad = got.len() != pos || equals_stream(content_seed, &[Bytes::from(got)]).is_some() || r.size != pos;
+                if bad {
+                    report.violation(
+                        "object-content-differs-from-written-bytes-local-fs",
+                        "file differs from the written bytes",
+                        json!({"seed": seed as i64, "local_case": idx, "chunks": chunks}),
+                    );
+                }
+            }
+            1 => {
+                w.abort().await;
+                drop(w);
+            }
+            _ => drop(w),
+        }
+        for _ in 0..50 {
+            tokio::task::yield_now().await;
+        }
+        tokio::time::sleep(Duration::from_millis(20)).await;
+        Ok(())
+    });
+    if let Err(e) = res {
+        report.harness_error(&format!("local fs case {idx}: {e}"));
+        return;
+    }
+    let multipart = chunks.iter().sum::<usize>() >= PART;
+    if how != 0 {
+        let mut leftovers = vec![];
+        if let Ok(rd) = std::fs::read_dir(file.parent().unwrap()) {
+            for e in rd.flatten() {
+                leftovers.push(e.file_name().to_string_lossy().to_string());
+            }
+        }
+        if file.exists() {
+            report.violation(
+                &format!("object-left-after-{}-local-fs", if how == 1 { "abort" } else { "drop" }),
+                "destination file exists after abort/drop",
+                json!({"seed": seed as i64, "local_case": idx, "chunks": chunks, "dir": leftovers}),
+            );
+        }
+        if !leftovers.is_empty() {
+            report.count("local_fs.staged_files_left_after_abort_or_drop", leftovers.len() as u64);
+        }
+    }
+    report.case(if multipart {
+        Some(fnv(format!("local|{chunks:?}|{how}").as_bytes()))
+    } else {
+        None
+    });
+    report.count("local_fs.cases", 1);
+}
+
+pub fn run(args: &Args) -> i32 {
+    let selftest = args.extra.contains_key("selftest");
+    let report = Report::new(args, "fault_enumeration", RULE, (55, 900)).with_min_nontrivial(30);
+    report.assume("part order and the \"Missing part\" check of `complete` follow object_store's S3/GCS/Azure clients (position = order of the put_part call)");
+    report.assume("a store that applies complete/put and then reports failure (lost reply) is not generated: no writer could leave the destination clean then");
+    report.assume("part size growth after 100 parts (500 MiB) is exercised only in the thorough tier");
+    std::panic::set_hook(Box::new(|_| {}));
+    let threads = 12usize;
+    let max_scenarios: u64 = args.tier.pick(2_000, 200_000);
+    let all_complete = std::sync::atomic::AtomicBool::new(true);
+    let next = std::sync::atomic::AtomicU64::new(0);
+    std::thread::scope(|s| {
+        for _ in 0..threads {
+            s.spawn(|| loop {
+                let idx = next.fetch_add(1, std::sync::atomic::Ordering::SeqCst);
+                if idx >= max_scenarios || !report.time_left() {
+                    break;
+                }
+                let mut rng = Rng::for_case(args.seed, idx);
+                if idx % 40 == 39 && !selftest {
+                    local_fs_case(&report, args.seed, idx, &mut rng);
+                    continue;
+                }
+                let scn = gen_scenario(&mut rng, idx);
+                let r = std::panic::catch_unwind(std::panic::AssertUnwindSafe(|| {
+                    run_scenario(&report, args.seed, idx, &scn, selftest)
+                }));
+                match r {
+                    Ok(true) => {}
+                    Ok(false) => all_complete.store(false, std::sync::atomic::Ordering::SeqCst),
+                    Err(p) => {
+                        let msg = p
+                            .downcast_ref::<String>()
+                            .cloned()
+                            .or_else(|| p.downcast_ref::<&str>().map(|s| s.to_string()))
+                            .unwrap_or_default();
+                        report.violation(
+                            "panic-in-object-writer",
+                            &format!("panic while writing: {msg}"),
+                            json!({"seed": args.seed as i64, "scenario_index": idx, "scenario": scn.describe()}),
+                        );
+                    }
+                }
+            });
+        }
+        if args.tier == Tier::Thorough && !selftest {
+            // part-size growth beyond 100 parts, once per flag value (about 0.5 GiB each, run alone)
+            s.spawn(|| {
+                for constant in [false, true] {
+                    let scn = Scenario {
+                        chunks: std::iter::repeat(PART).take(100).chain([2 * PART + 3, PART + 1, 7]).collect(),
+                        api: Api::WriteAll,
+                        constant_parts: constant,
+                        pre_existing: false,
+                        delay_seed: 7,
+                        create_delay: 0,
+                        content_seed: 99 + constant as u64,
+                        flush_every: 0,
+                    };
+                    let rt = rt_paused();
+                    let o = rt.block_on(run_one(&scn, Inject::None));
+                    let parts = o.calls.iter().filter(|c| **c == "part").count();
+                    report.count("large.cases_over_100_parts", 1);
+                    report.count("large.parts", parts as u64);
+                    report.case(Some(fnv(format!("large|{constant}|{parts}").as_bytes())));
+                    for (sg, what) in judge(&scn, Inject::None, &o) {
+                        let mut w = witness(args.seed, u64::MAX, &scn, Inject::None, &o);
+                        w["scenario"]["chunks"] = json!("100 x 5 MiB, 10 MiB + 3, 5 MiB + 1, 7");
+                        report.violation(&format!("{sg}-over-100-parts"), &what, w);
+                    }
+                }
+            });
+        }
+    });
+    // exhaustive for the sub-space "every storage call of every executed scenario x fault kinds,
+    // abort/drop after every write" iff no scenario was cut short by the budget
+    let full = report.counter("scenarios_fully_enumerated");
+    let total = report.counter("scenarios");
+    report.set(
+        "exhaustive_subspace",
+        json!("per executed scenario: every storage call x {permanent, connection reset once, connection reset forever (parts)}, abort and drop after every write call, drop after 1/2/3/5/9 polls of shutdown"),
+    );
+    report.exhaustive(full == total && total > 0);
+    if selftest {
+        let missed = report.counter("selftest_missed");
+        let flagged = report.counter("selftest_flagged");
+        println!("SELFTEST C31 flagged={flagged} missed={missed}");
+        return if missed == 0 && flagged > 0 { 0 } else { 2 };
+    }
+    report.finish()
 }
